@@ -201,8 +201,20 @@ func phaseServer(n, iters int, stats map[string]int) {
 // ---- phase 3: one client
 type echoRT struct{}
 
+// every request must carry its own method header (a GET says get, a DELETE says delete), the application's static extra
+// header, and the key in path and query must belong together
 func (echoRT) RoundTrip(req *http.Request) (*http.Response, error) {
 	key := req.URL.Path[strings.LastIndex(req.URL.Path, "/")+1:]
+	want := map[string]string{"GET": "get", "DELETE": "delete"}[req.Method]
+	if got := req.Header.Get("X-RestLi-Method"); got != want {
+		violation("C17/client/header-leak", fmt.Sprintf("a %s request carries X-RestLi-Method %q", req.Method, got), nil)
+	}
+	if got := req.Header.Get("Authorization"); got != "static" {
+		violation("C17/client/extra-header-lost", fmt.Sprintf("the application's extra header arrived as %q", got), nil)
+	}
+	if req.URL.RawQuery != "p="+key {
+		violation("C17/client/leak", fmt.Sprintf("path key %s travels with query %s", key, req.URL.RawQuery), nil)
+	}
 	body := fmt.Sprintf(`{"k":%q,"p":%q}`, key, req.URL.RawQuery)
 	return &http.Response{StatusCode: 200, Header: http.Header{"X-Restli-Protocol-Version": {"2.0.0"}}, Body: io.NopCloser(strings.NewReader(body)), Request: req}, nil
 }
@@ -210,6 +222,9 @@ func (echoRT) RoundTrip(req *http.Request) (*http.Response, error) {
 func phaseClient(n, iters int, stats map[string]int) {
 	u, _ := url.Parse("http://h/ctx")
 	c := &restli.Client{Client: &http.Client{Transport: echoRT{}}, HostnameResolver: &restli.SimpleHostnameResolver{Hostname: u}, QueryTunnellingThreshold: 0}
+	// an application-owned header map handed out again and again (static credentials): the client may read it, never
+	// write it, and must not make it the header map of a request
+	static := http.Header{"Authorization": {"static"}}
 	var wg sync.WaitGroup
 	for g := 0; g < n; g++ {
 		wg.Add(1)
@@ -218,14 +233,22 @@ func phaseClient(n, iters int, stats map[string]int) {
 			for i := 0; i < iters; i++ {
 				key := fmt.Sprintf("k-%d-%d", g, i)
 				ctx, hdrs := restli.AddResponseHeadersCaptor(context.Background())
-				e, err := restli.Get[*entT](c, ctx, restli.ResourcePathString("/r/"+key), restli.QueryParamsString("p="+key))
-				if err != nil || e.K != key || e.P != "p="+key || hdrs.Get("X-Restli-Protocol-Version") != "2.0.0" {
-					violation("C17/client/leak", fmt.Sprintf("call for %s returned %+v (%v)", key, e, err), nil)
+				ctx = restli.ExtraRequestHeaders(ctx, func() (http.Header, error) { return static, nil })
+				if (g+i)%2 == 0 {
+					e, err := restli.Get[*entT](c, ctx, restli.ResourcePathString("/r/"+key), restli.QueryParamsString("p="+key))
+					if err != nil || e.K != key || e.P != "p="+key || hdrs.Get("X-Restli-Protocol-Version") != "2.0.0" {
+						violation("C17/client/leak", fmt.Sprintf("call for %s returned %+v (%v)", key, e, err), nil)
+					}
+				} else if err := restli.Delete(c, ctx, restli.ResourcePathString("/r/"+key), restli.QueryParamsString("p="+key)); err != nil {
+					violation("C17/client/leak", fmt.Sprintf("delete of %s failed: %v", key, err), nil)
 				}
 			}
 		}(g)
 	}
 	wg.Wait()
+	if len(static) != 1 || static.Get("Authorization") != "static" {
+		violation("C17/client/extra-headers-modified", fmt.Sprintf("the application's header map was modified by the client: %v", static), nil)
+	}
 	stats["client_calls"] = n * iters
 }
 
